@@ -74,10 +74,26 @@ open Mav Msg SortOrder
 
 theorem sizes_tbl (t : Gen.FType) : (Gen.fieldTypeSizes t).toNat = Spec.Msg.tySize t := by cases t <;> rfl
 
+/-- what the two guards of `initField` establish -/
+theorem initField_ok (i : Nat) (f : GoField) (d : DField) (h : initField i f = .ok d) :
+    f.exported = true ∧ (f.isArray = true → 1 ≤ f.arrLen ∧ f.arrLen ≤ 255) ∧ initFieldCore i f = .ok d := by
+  unfold initField at h
+  split at h
+  · cases h
+  · rename_i he
+    split at h
+    · cases h
+    · rename_i ha
+      refine ⟨by simpa using he, ?_, h⟩
+      intro hi
+      simp only [hi, Bool.true_and, Bool.or_eq_true, decide_eq_true_eq, not_or, Nat.not_lt] at ha
+      omega
+
 theorem initField_char (i : Nat) (f : GoField) (d : DField) (h : initField i f = .ok d) :
     d.index = i ∧ d.isExt = (f.mavext == "true") ∧
     Gen.fieldTypeFromGo (if f.mavenum ≠ "" then f.mavenum else f.elemType) = some d.ftype := by
-  unfold initField at h
+  replace h := (initField_ok i f d h).2.2
+  unfold initFieldCore at h
   by_cases he : f.mavenum ≠ ""
   · rw [if_pos he] at h
     rw [if_pos he]
@@ -107,11 +123,19 @@ theorem initField_char (i : Nat) (f : GoField) (d : DField) (h : initField i f =
       · simp only [pure, Except.pure, Except.ok.injEq] at h
         subst h; exact ⟨rfl, rfl, rfl⟩
 
+theorem fieldOfGo_ok (i : Nat) (f : GoField) (sf : Spec.Msg.SField) (h : Spec.Msg.fieldOfGo i f = some sf) :
+    f.exported = true ∧ Spec.Msg.fieldOfGoCore i f = some sf := by
+  unfold Spec.Msg.fieldOfGo at h
+  split at h
+  · cases h
+  · rename_i he; exact ⟨by simpa using he, h⟩
+
 theorem fieldOfGo_char (i : Nat) (f : GoField) (sf : Spec.Msg.SField) (h : Spec.Msg.fieldOfGo i f = some sf) :
     sf.idx = i ∧ sf.ext = (f.mavext == "true") ∧
     (if f.mavenum ≠ "" then Gen.fieldTypeFromGo f.mavenum = some sf.ty
      else if f.elemType == "string" then sf.ty = .char else Gen.fieldTypeFromGo f.elemType = some sf.ty) := by
-  unfold Spec.Msg.fieldOfGo at h
+  replace h := (fieldOfGo_ok i f sf h).2
+  unfold Spec.Msg.fieldOfGoCore at h
   by_cases he : f.mavenum ≠ ""
   · rw [if_pos he] at h
     rw [if_pos he]
@@ -136,7 +160,7 @@ theorem fieldOfGo_char (i : Nat) (f : GoField) (sf : Spec.Msg.SField) (h : Spec.
       · cases h
       · split at h
         · simp only [Option.some.injEq] at h; subst h; exact ⟨rfl, rfl, rfl⟩
-        · cases hn : Spec.Msg.parseNat f.mavlen with
+        · cases hn : Spec.Msg.parseLen f.mavlen with
           | none => rw [hn] at h; cases h
           | some n => rw [hn] at h; simp only [Option.bind_some, Option.some.injEq] at h; subst h; exact ⟨rfl, rfl, rfl⟩
     · rw [if_neg hs] at h
@@ -258,6 +282,26 @@ theorem extAfterBase_of_check (l : List Spec.Msg.SField) (h : (l.dropWhile (!·.
       rw [hd] at h
       exact allExt_extAfterBase (a :: r) h
 
+/-- what `init` has established when it succeeds -/
+theorem init_ok (st : GoStruct) (rw : RW) (h : Msg.init st = .ok rw) :
+    st.name.startsWith "Message" = true ∧ ∃ fs, initFields 0 st.fields = .ok fs ∧ extOrderOk fs = true ∧
+      sizeTotal fs ≤ 255 ∧ rw = mkRW st fs := by
+  unfold Msg.init at h
+  split at h
+  · cases h
+  · rename_i hname
+    split at h
+    · cases h
+    · rename_i fs hfs
+      split at h
+      · cases h
+      · rename_i hext
+        split at h
+        · cases h
+        · rename_i hsz
+          simp only [Except.ok.injEq] at h
+          exact ⟨by simpa using hname, fs, hfs, by simpa using hext, by omega, h.symm⟩
+
 /-- **C03 (ordering, for every struct).** Whenever `Initialize` accepts a struct and the struct is a MAVLink definition in the
     specification's sense (in particular: extensions declared after the base fields), the order in which the model puts
     the fields on the wire is the specification's: base fields by decreasing primitive size, declaration order within a size,
@@ -265,37 +309,29 @@ theorem extAfterBase_of_check (l : List Spec.Msg.SField) (h : (l.dropWhile (!·.
 theorem wire_order_agrees (st : GoStruct) (rw : RW) (d : Spec.Msg.SDef)
     (h1 : Msg.init st = .ok rw) (h2 : Spec.Msg.ofGo st = some d) :
     rw.fields.map (·.index) = (Spec.Msg.wireOrder d).map (·.idx) := by
-  -- unpack the model
-  unfold Msg.init at h1
-  simp only [bind, Except.bind] at h1
-  split at h1
-  · cases h1
-  · cases hfs : initFields 0 st.fields with
-    | error e => simp [hfs] at h1
-    | ok fs =>
-      simp only [hfs, pure, Except.pure, Except.ok.injEq] at h1
-      -- unpack the specification
-      unfold Spec.Msg.ofGo at h2
-      simp only [Option.bind_eq_bind, Option.pure_def] at h2
+  obtain ⟨_, fs, hfs, _, _, h1⟩ := init_ok st rw h1
+  -- unpack the specification
+  unfold Spec.Msg.ofGo at h2
+  simp only [Option.bind_eq_bind, Option.pure_def] at h2
+  split at h2
+  · cases h2
+  · cases hsf : Spec.Msg.fieldsOfGo 0 st.fields with
+    | none => simp [hsf] at h2
+    | some sfs =>
+      simp only [hsf, Option.bind_some] at h2
       split at h2
+      · rename_i hchk
+        simp only [Option.some.injEq] at h2
+        simp only [Bool.and_eq_true] at hchk
+        have hlink := fields_link st.fields 0 fs sfs hfs hsf
+        have hidx := (fieldsOfGo_idx st.fields 0 sfs hsf).1
+        have hext := extAfterBase_of_check sfs hchk.1.1
+        have hmain : (sortFields fs).map projD = (Spec.Msg.wireOrder d).map projS := by
+          rw [sortFields_map, hlink, isort_eq_spec _ hidx hext, wireOrder_map, ← h2]
+        have := congrArg (List.map (·.idx)) hmain
+        simp only [List.map_map] at this
+        rw [h1]
+        exact this
       · cases h2
-      · cases hsf : Spec.Msg.fieldsOfGo 0 st.fields with
-        | none => simp [hsf] at h2
-        | some sfs =>
-          simp only [hsf, Option.bind_some] at h2
-          split at h2
-          · rename_i hchk
-            simp only [Option.some.injEq] at h2
-            simp only [Bool.and_eq_true] at hchk
-            have hlink := fields_link st.fields 0 fs sfs hfs hsf
-            have hidx := (fieldsOfGo_idx st.fields 0 sfs hsf).1
-            have hext := extAfterBase_of_check sfs hchk.1.1
-            have hmain : (sortFields fs).map projD = (Spec.Msg.wireOrder d).map projS := by
-              rw [sortFields_map, hlink, isort_eq_spec _ hidx hext, wireOrder_map, ← h2]
-            have := congrArg (List.map (·.idx)) hmain
-            simp only [List.map_map] at this
-            rw [← h1]
-            exact this
-          · cases h2
 
 end Mav.SortLink
